@@ -235,3 +235,95 @@ Section Concrete.
       split; [exact Hap|]. rewrite Hra, Hap. reflexivity.
   Qed.
 End Concrete.
+
+(* ---- the clauses of the property, one by one (projections of [model_step_contract]) ---- *)
+
+Section Clauses.
+  Variable ck : CState -> bytes.
+  Hypothesis ck_blind : forall s x, ck (set_checksum s x) = ck s.
+  Variable log : list Entry.
+  Hypothesis sorted : StronglySorted N.lt (map e_idx log).
+  Variable k : nat.
+  Hypothesis Hk : (k < length log)%nat.
+
+  Lemma model_revision_plus_one :
+    r_class (R_ref ck log k) = cChanged -> s_rev (S_ref ck log (S k)) = s_rev (S_ref ck log k) + 1.
+  Proof. exact (proj1 (proj2 (model_step_contract ck ck_blind log sorted k Hk))). Qed.
+
+  Lemma model_updated_keeps_revision :
+    r_class (R_ref ck log k) = cUpdated ->
+    s_rev (S_ref ck log (S k)) = s_rev (S_ref ck log k) /\ logical_eq (S_ref ck log (S k)) (S_ref ck log k) = true.
+  Proof. exact (proj1 (proj2 (proj2 (model_step_contract ck ck_blind log sorted k Hk)))). Qed.
+
+  Lemma model_rejected_untouched :
+    r_class (R_ref ck log k) = cNoop \/ r_class (R_ref ck log k) = cRejected ->
+    body_eq (S_ref ck log (S k)) (S_ref ck log k) = true.
+  Proof. exact (proj1 (proj2 (proj2 (proj2 (model_step_contract ck ck_blind log sorted k Hk))))). Qed.
+
+  Lemma model_result_class :
+    r_class (R_ref ck log k) = cChanged \/ r_class (R_ref ck log k) = cUpdated
+    \/ r_class (R_ref ck log k) = cNoop \/ r_class (R_ref ck log k) = cRejected.
+  Proof. exact (proj1 (model_step_contract ck ck_blind log sorted k Hk)). Qed.
+
+  Lemma model_persisted_valid :
+    s_rev (S_ref ck log (S k)) <> 0 ->
+    Validate (S_ref ck log (S k)) = true /\ ckokS ck (S_ref ck log (S k)) = true.
+  Proof.
+    intro E. destruct (proj2 (proj2 (proj2 (proj2 (proj2 (model_step_contract ck ck_blind log sorted k Hk))))) E) as (V & C & _).
+    split; assumption.
+  Qed.
+
+  Lemma model_preinit_nothing :
+    s_rev (S_ref ck log (S k)) = 0 -> S_ref ck log (S k) = empty_state.
+  Proof. exact (proj1 (proj2 (proj2 (proj2 (proj2 (model_step_contract ck ck_blind log sorted k Hk)))))). Qed.
+End Clauses.
+
+(* ---- a concrete log (non-vacuity and the corner with non-increasing indices) ---- *)
+
+Definition ex_node (status : bytes) : Node :=
+  Nd 1 (hx "6e31") (hx "6e31") [NodeRoleControllerVoter; NodeRoleData] NodeJoinStateActive status 1.
+Definition ex_cmd (kind : bytes) : Command :=
+  Cmd kind 0 None None None [] None None None None None None None None None None None.
+Definition ex_init : Command :=
+  Cmd KindInitClusterState 0 None
+      (Some (IC (hx "776b") (Cfg 2 8 1 0) [CV 1 (hx "6e31") ControllerRoleVoter] [ex_node NodeStatusAlive]))
+      None [] None None None None None None None None None None None.
+Definition ex_upsert (status : bytes) : Command :=
+  Cmd KindUpsertNode 0 None None (Some (ex_node status)) [] None None None None None None None None None None None.
+Definition ex_log : list Entry :=
+  [En 3 1 (ex_upsert NodeStatusDown); En 5 1 ex_init; En 6 1 (ex_upsert NodeStatusSuspect);
+   En 9 2 (ex_upsert NodeStatusSuspect)].
+(* the same init and upsert with indices out of order: not a Raft log *)
+Definition ex_unsorted : list Entry := [En 5 1 ex_init; En 3 1 (ex_upsert NodeStatusSuspect)].
+
+Lemma ck0_blind : forall s x, ck0 (set_checksum s x) = ck0 s. Proof. reflexivity. Qed.
+
+Lemma ex_log_sorted : StronglySorted N.lt (map e_idx ex_log).
+Proof. cbn. repeat constructor; lia. Qed.
+
+Lemma ex_run_classes :
+  map r_class (snd (c_parts ck0 [[En 3 1 (ex_upsert NodeStatusDown); En 5 1 ex_init];
+                                  [En 6 1 (ex_upsert NodeStatusSuspect); En 9 2 (ex_upsert NodeStatusSuspect)]]))
+  = [cRejected; cChanged; cChanged; cNoop]
+  /\ map r_rev (snd (c_parts ck0 (map (fun e => [e]) ex_log))) = [0; 1; 2; 2]
+  /\ map r_applied (snd (c_parts ck0 (map (fun e => [e]) ex_log))) = [3; 5; 6; 9].
+Proof. vm_compute. auto. Qed.
+
+Lemma ex_scenario_wf :
+  c_wf ck0 ex_log [CBatch 3 2; CRestart 1; CBatch 3 0; CRestart 0; CBatch 4 1; CRestart 2; CBatch 2 0].
+Proof. vm_compute. repeat split; lia. Qed.
+
+Lemma ex_unsorted_differs :
+  snd (c_parts ck0 [ex_unsorted]) <> snd (c_parts ck0 (map (fun e => [e]) ex_unsorted)).
+Proof. vm_compute. discriminate. Qed.
+
+Lemma Good_unfold s : Good s -> Validate s = true /\ Normalize s = s /\ s_rev s <> 0.
+Proof. intro G. split; [exact (proj1 G)|]. split; [exact (proj1 (proj2 G))|]. apply Good_rev. exact G. Qed.
+
+Lemma monitor_is_gen c :
+  C18_monitor c = 0 <->
+  monitor_gen (fun r => s_rev (body_of c r)) sr_applied sr_valid sr_ckok (sref_eq c) (sref_body_eq c)
+              (sref_logical_eq c) (c_init c) (map e_idx (c_log c)) (c_ref c) (c_scens c) = true.
+Proof.
+  unfold C18_monitor. destruct (monitor_gen _ _ _ _ _ _ _ _ _ _ _); split; intro H; try reflexivity; discriminate H.
+Qed.
